@@ -2,7 +2,7 @@
    (Gen/), the model and the specs. *)
 From Coq Require Import NArith ZArith List String.
 Import ListNotations.
-Open Scope N_scope.
+Local Open Scope N_scope.
 
 (* Go type of a message struct field, as reported by reflect. *)
 Inductive gotype :=
